@@ -699,7 +699,7 @@ func isReleaseDefer(d *ssa.Defer) bool {
 					} else if g := cc.Call.StaticCallee(); g != nil {
 						n = g.Name()
 					}
-					if n == "Unlock" || n == "Close" {
+					if (n == "Unlock" || n == "Close") && !underRecoverTest(cf, b) {
 						return true
 					}
 				}
@@ -707,6 +707,37 @@ func isReleaseDefer(d *ssa.Defer) bool {
 		}
 	}
 	return false
+}
+
+// underRecoverTest: the block is reached only through the non-nil outcome of a test of recover()'s result: a
+// release there runs when the body panicked and not when it returned (an exit marker handed up is a return).
+func underRecoverTest(fn *ssa.Function, b *ssa.BasicBlock) bool {
+	fromRecover := func(v ssa.Value) bool {
+		for i := 0; i < 4; i++ {
+			switch x := v.(type) {
+			case *ssa.Call:
+				bi, ok := x.Call.Value.(*ssa.Builtin)
+				return ok && bi.Name() == "recover"
+			case *ssa.ChangeInterface:
+				v = x.X
+			case *ssa.MakeInterface:
+				v = x.X
+			default:
+				return false
+			}
+		}
+		return false
+	}
+	return core.Separates(fn, b, nil, func(ifi *ssa.If, br bool) bool {
+		bo, ok := ifi.Cond.(*ssa.BinOp)
+		if !ok || (bo.Op != token.NEQ && bo.Op != token.EQL) {
+			return false
+		}
+		if !(fromRecover(bo.X) || fromRecover(bo.Y)) {
+			return false
+		}
+		return (bo.Op == token.NEQ) == br
+	})
 }
 
 // instrDominates: a executes before b on every path reaching b.
